@@ -94,6 +94,7 @@ def handle (toks : List String) : Option String := do
     | "up_align_usize_unchecked", [a, b] => pure (showM toString (Gen.LibArith.up_align_usize_unchecked a b))
     | "down_align_usize", [a, b] => pure (showM toString (Gen.LibArith.down_align_usize a b))
     | "lib_bump_down", [a, b, c] => pure (showM toString (Gen.LibArith.bump_down a b c))
+    | "spec_lib_bump_down", [a, b, c] => pure (toString (Spec.downAlign (a - b) c))
     | "min_non_zero_cap", [a] => pure (showM toString (Gen.LibArith.min_non_zero_cap a))
     | "align_pos", [u, a, b] => pure (showM toString (Gen.LibArith.align_pos (u != 0) a b))
     -- Rs.lean primitives (trusted layer, differential-tested)
